@@ -29,6 +29,8 @@ def run(path):
             return 0
         if det.get("driver") == "joe" and "scenario_seed" in det:
             det["trace_spec"] = "JoeTrace"
+        if det.get("driver") == "e2e" and "scenario_seed" in det:
+            det["trace_spec"] = "E2ETrace"
         if "trace_spec" in det:
             from . import tracecheck
             return tracecheck.replay(ctx, rec)
